@@ -611,11 +611,15 @@ func replaceFunc(arg1, arg2, arg3 query) func(query, iterator) interface{} {
 // rewriteGroupRefs turns the group references of an XPath replacement string
 // into Go's template syntax. A "$" followed by digits refers to a capture
 // group: the longest prefix of the digits that is the number of an existing
-// group (0 is the whole match) is the reference and is written as "${N}", the
-// remaining digits are literal text. If not even the first digit numbers a
-// group, that digit alone is the (empty) reference. Written with braces, a
-// reference is never extended by the letters or digits that follow it.
+// group or a single digit (0 is the whole match) is the reference and is
+// written as "${N}", the remaining digits are literal text. Written with
+// braces, a reference is never extended by the letters or digits that follow it.
 func rewriteGroupRefs(dst string, groups int) string {
+	// A single digit is always a reference (to an empty group if there is no
+	// such group), so "$05" with two groups is group 5, not "$0" followed by 5.
+	if groups < 9 {
+		groups = 9
+	}
 	var b strings.Builder
 	for i := 0; i < len(dst); i++ {
 		if dst[i] != '$' || i+1 == len(dst) || dst[i+1] < '0' || dst[i+1] > '9' {
